@@ -28,8 +28,10 @@ ADSETS = [
     [("-a", "l3=TTGCAGCA...CCGGTTAA"), ("-a", "a1=ACGTACGG")],
     # an 'anywhere' adapter that is found at the very start of the searched sequence (so it removes the 5' side) with a later round
     [("-b", "b1=GGATCCAA"), ("-a", "a1=ACGTACGG")],
+    # many anchored adapters of one kind (grouped into an index) next to a single anchored adapter of the other kind
+    [("-g", "q1=^CCTTAAGG"), ("-g", "q2=^GGCCTTAA"), ("-g", "q3=^TATATCGC"), ("-g", "q4=^CGCGATAT"), ("-a", "s1=ACGTACGG$")],
 ]
-ADSEQ = {"a1": "ACGTACGG", "g1": "TTGCAGCA", "b1": "GGATCCAA", "a2": "CCGGTTAA", "w1": "ACGNNCGG", "p1": "TTGCAGCA", "s1": "ACGTACGG",
+ADSEQ = {"q1": "CCTTAAGG", "q2": "GGCCTTAA", "q3": "TATATCGC", "q4": "CGCGATAT", "a1": "ACGTACGG", "g1": "TTGCAGCA", "b1": "GGATCCAA", "a2": "CCGGTTAA", "w1": "ACGNNCGG", "p1": "TTGCAGCA", "s1": "ACGTACGG",
          "l1;1": "TTGCA", "l1;2": "ACGTACGG", "l2;1": "TTGCAGCA", "l2;2": "CCGGTTAA", "l3;1": "TTGCAGCA", "l3;2": "CCGGTTAA"}
 RATE = 0.15
 
@@ -161,12 +163,57 @@ def run_shard(d):
         with open(infop) as fh:
             rows = [ln.rstrip("\n").split("\t") for ln in fh if ln.strip("\n") != ""]
         res["rows"] += len(rows)
+        if sc.get("paired") is None and not sc.get("fasta") and not sc["rc"]:
+            _expected_matches(V, res, case, rows, recs, sc)
         pre_kinds = _pre_signature(sc["pre"])
         _judge(V, res, case, rows, recs, byname, sc, pre_kinds, mates(recs) if sc.get("paired") is not None else None)
         if not res["samples"] and sc["times"] == 2 and sc["pre"]:
             res["samples"].append(dict(argv=argv, first_rows=rows[:3]))
     clih.rmtree(wd)
     return res
+
+
+_ADS = {}
+
+
+def _expected_matches(V, res, case, rows, recs, sc):
+    """'Locates every match': the adapters named in a read's rows, in order, are those the stated rules apply to the read after
+    the pre-adapter modifications (reference pipeline; the adapters are built once per set with the parser)."""
+    from cutadapt.parser import make_adapters_from_specifications
+
+    from .. import refpipe
+
+    ai = sc["ai"]
+    if ai not in _ADS:
+        tmap = {"-a": "back", "-g": "front", "-b": "anywhere"}
+        _ADS[ai] = make_adapters_from_specifications([(tmap[f], s_) for f, s_ in ADSETS[ai]],
+                                                     dict(max_errors=RATE, min_overlap=4, read_wildcards=False, adapter_wildcards=True, indels=True))
+    opts = dict(times=sc["times"])
+    flat = [x for p in sc["pre"] for x in p]
+    cuts = [int(flat[i + 1]) for i in range(len(flat) - 1) if flat[i] == "-u"]
+    if cuts:
+        opts["cut"] = cuts
+    for i in range(len(flat) - 1):
+        if flat[i] == "-q":
+            opts["q"] = flat[i + 1]
+        if flat[i] == "--nextseq-trim":
+            opts["nextseq"] = int(flat[i + 1])
+    model = refpipe.Model(opts, _ADS[ai], [], paired=False)
+    got = {}
+    for row in rows:
+        names = got.setdefault(row[0], [])
+        if row[1] != "-1":
+            base = row[7].split(";")[0]
+            if not (row[7].endswith(";2") and names and names[-1] == base):
+                names.append(base)
+    for name, seq, qual in recs:
+        rec = refpipe.Rec(name, seq, qual)
+        model.run_steps(rec, 0, ["cut", "nextseq", "quality", "adapter"])
+        exp = [m.name for m in rec.matches]
+        if got.get(name, []) != exp:
+            V.append(("matches", f"the rows of the read name the adapters {got.get(name, [])}, the stated rules apply {exp} "
+                      "(a match that is not in the info file, or a row for a match that was not applied)", dict(case, read=[name, seq, qual])))
+            return
 
 
 def _pre_signature(pre):
@@ -249,7 +296,7 @@ def _judge(V, res, case, rows, recs, byname, sc, pre_kind, mate_recs=None):
             elif aname.endswith(";2"):
                 cur_s, cur_q = cur_s[:start], cur_q[:start]
             else:
-                five = aname.startswith(("g", "p")) or (aname.startswith("b") and start == 0)
+                five = aname.startswith(("g", "p", "q")) or (aname.startswith("b") and start == 0)
                 if aname.startswith("b") and start != 0 and ri_ + 1 < len(g) and len(g[ri_ + 1]) >= 7:
                     # an anywhere adapter removes the 5' side iff it starts at the first base of the SEARCHED sequence, which is not
                     # column 0 when -u/-q removed bases before: take the side that the next row continues with (if it continues
@@ -300,7 +347,7 @@ def run(tier):
     R.assumptions = ["which adapter is applied in which round is C09's business; here each row must be self-consistent and consistent "
                      "with the input read / the previous round's remainder", "field 6 is re-aligned to the named adapter by the C reference"]
     return R.finish(tot.get("evals", 0), tot.get("nontrivial", 0),
-                    "scenarios = 11 sets of pre-adapter modifications (subsets of -u 3, -u -2, -q 10,10, -q 10, --nextseq-trim 10) x 11 adapter "
+                    "scenarios = 11 sets of pre-adapter modifications (subsets of -u 3, -u -2, -q 10,10, -q 10, --nextseq-trim 10) x 12 adapter "
                     "sets (3', 5', anywhere, anchored, wildcard, two linked) x --times {1,2,3} x --revcomp on/off x filters that discard "
                     "reads; plus paired-end runs (R2-only cuts/adapters/quality trimming, adapters on R1, R2 or both: the rows describe R1); "
                     "corpus of ~100 reads with position-unique qualities; every info-file row is checked; non-trivial = read has a match row",
